@@ -27,3 +27,9 @@ func verifDelay(n int, d time.Duration) {
 		o.Delay(n, d)
 	}
 }
+
+// VerifCalculateDelay returns the back-off wait the policy of dr prescribes after the
+// given attempt, without sleeping (caps of days or years cannot be waited out in a test).
+func VerifCalculateDelay(dr *DatabaseRecovery, attempt int) time.Duration {
+	return dr.calculateDelay(attempt)
+}
